@@ -102,7 +102,7 @@ func runCycle(d Desc) mon.Result {
 				if e != nil {
 					return bad("read-error", n, "Transport.Read on a healthy link: %v", e)
 				}
-				cs.add(b)
+				cs.addOwned(b)
 			}
 		}
 		for _, x := range []struct {
@@ -117,6 +117,9 @@ func runCycle(d Desc) mon.Result {
 				return bad(x.dir+"-"+class, n, "%s", c)
 			}
 		}
+		if c := cs.changed(); c != "" {
+			return bad("delivered-chunk-changed-after-return", n, "%s", c)
+		}
 		// Close
 		time.Sleep(time.Duration(5+d.Seed%20) * time.Millisecond) // the reader parks in Read
 		tc := time.Now()
@@ -129,7 +132,9 @@ func runCycle(d Desc) mon.Result {
 		}
 		if !closeReturned || !released {
 			if mon.LoadedSince(tc) {
-				return mon.Result{Verdict: mon.Inconclusive, Detail: "close/unblock not observed within 5 s under load"}
+				if stuck, concl := l.stillStuck(cs, before, force); !stuck {
+					return mon.Result{Verdict: mon.Inconclusive, Detail: fmt.Sprintf("close/unblock not observed within 5 s under load (came back later: %v)", concl)}
+				}
 			}
 			return bad("unblock:close", n, "Close(%v) returned=%v; the goroutine blocked in Transport.Read returned=%v within 5 s", force, closeReturned, released)
 		}
